@@ -15,6 +15,7 @@ import Emg3dVerif.Drv.C16
 import Emg3dVerif.Drv.C17
 import Emg3dVerif.Drv.C18
 import Emg3dVerif.Drv.C19
+import Emg3dVerif.Drv.C20
 open Emg
 
 def handle (ws : List String) : String :=
@@ -39,6 +40,7 @@ def handle (ws : List String) : String :=
       else if w == "io" then Drv17.handle ws
       else if w.startsWith "cli" then Drv18.handle ws
       else if w == "imat" || w == "merge" || w == "lslots" then Drv19.handle ws
+      else if w == "fou" then Drv20.handle ws
       else none
     r.getD "bad-op"
 
